@@ -96,6 +96,7 @@ def json_at(wj, key):
 # the depth surfaces (triangles, kd nodes, extrema, constness) are data the model takes from the implementation; what the
 # model assumes about them is checked here for every world of every check and reported by lib/check.py
 SURFACE_TIE = []
+MERGE_STATS = {"surfaces": 0, "disagree": 0}
 
 
 def surface_tie_violations(wj, surfaces):
@@ -112,6 +113,28 @@ def surface_tie_violations(wj, surfaces):
     return out
 
 
+def merge_statement(wj, key):
+    """the model's merge (Kernels.merge_values: corners at the default, then the entries in file order) of a depth given as
+    values at points, as an OCaml statement printing (x, y, value) of every node; None when the key is not such a list"""
+    from wbgen import PI, DMAX, mlist, mpt
+    v = json_at(wj, key)
+    toks = key.split("/")
+    if not (isinstance(v, list) and v and all(isinstance(e, list) and len(e) in (1, 2) for e in v)) or toks[0] != "features":
+        return None
+    feat = wj["features"][int(toks[1])]
+    poly = feat.get("coordinates")
+    if feat.get("model") not in ("continental plate", "oceanic plate", "mantle layer") or not poly:
+        return None
+    sph = wj.get("coordinate system", {}).get("model") == "spherical"
+    default = 0.0 if key.endswith("min_depth") else DMAX
+    corners = [((c[0] * PI) * (1 / 180.0), (c[1] * PI) * (1 / 180.0)) for c in poly] if sph else [(float(c[0]), float(c[1])) for c in poly]
+    ents = []
+    for e in v:
+        ents.append("(%s, None)" % ml(e[0]) if len(e) == 1 else "(%s, Some %s)" % (ml(e[0]), mlist([mpt(p) for p in e[1]])))
+    return ("let () = out_vec (List.concat_map (fun (v, (x, y)) -> [x; y; v]) (merge_values n %s %s %s %s))"
+            % ("true" if sph else "false", ml(default), mlist([mpt(c) for c in corners]), mlist(ents)))
+
+
 class CaseSet:
     def __init__(self, tag):
         self.dir = os.path.join(common.WORK, "cases", "%s_%d" % (tag, os.getpid()))
@@ -123,6 +146,7 @@ class CaseSet:
         self.worlds = []     # (slot, wj, elab)
         self.model_ok = []   # per world: can the model evaluate it?
         self.seeds_used = set()   # seeds whose mt19937 stream the model generated
+        self.merge_checks = []    # (world, surface key, implementation's surface, model statement): nodal values vs Kernels.merge_values
         self.has_lines = []  # per world: slabs/faults in the model (implementation side runs with the culling hook off)
         self.surface_bounds = []   # (world, key, reported min, max, nodal min, max) where the pre-test extrema miss a nodal value
 
@@ -144,6 +168,14 @@ class CaseSet:
                 for b in surface_bound_violations(surfaces):
                     self.surface_bounds.append((wj,) + b)
                 SURFACE_TIE.extend(surface_tie_violations(wj, surfaces))
+                for key, sv in surfaces.items():
+                    if not sv["const"] and sv["tris"]:
+                        try:
+                            st = merge_statement(wj, key)
+                        except Exception:
+                            st = None
+                        if st:
+                            self.merge_checks.append((wj, key, sv, st))
         el = Elab(wj, surfaces)
         term = el.world() if model else None
         ok = model and el.unsupported is None
@@ -236,6 +268,21 @@ class CaseSet:
     def run(self, model=True):
         impl = common.run_probe(self.probe)
         mod = common.run_model("\n".join(self.mlines), tag=os.path.basename(self.dir)) if model else None
+        if self.merge_checks:
+            # every node of the implementation's triangulation carries the value the merge rules give it (model, bit for bit)
+            mm = common.run_model("\n".join(st for (_w, _k, _s, st) in self.merge_checks), tag=os.path.basename(self.dir) + "m")
+            for (wj, key, sv, _st), ans in zip(self.merge_checks, mm):
+                mv = common.parse_vec(ans) or []
+                mset = set((mv[k], mv[k + 1], mv[k + 2]) for k in range(0, len(mv) - 2, 3))
+                iset = set((v[0], v[1], v[2]) for t in sv["tris"] for v in t)
+                MERGE_STATS["surfaces"] += 1
+                if not iset <= mset:
+                    MERGE_STATS["disagree"] += 1
+                    SURFACE_TIE.append(("the nodal values of %s are not those of the merge rules (corners at the default, entries in file order; model "
+                                        "Kernels.merge_values): node %s" % (key, sorted(iset - mset)[:2]),
+                                        {"kind": "world", "world": wj, "surface": key, "probe_line": "surfaces 0",
+                                         "implementation_nodes": sorted(iset)[:12], "model_nodes": sorted(mset)[:12]}))
+            self.merge_checks = []
         return impl, mod
 
     def describe(self, i):
